@@ -773,3 +773,4 @@ MANIFEST = {
             "Float rounding is outside the theorems.",
     "technique": "Lean 4 theorems (incl. Mathlib measure theory) over a hand-written model + differential correspondence + numerical integration tests",
 }
+MANIFEST["note"] += " " + py2lean.manifest_note("weights")
